@@ -18,12 +18,12 @@ def setup_paths():
 _star_cache = {}
 
 
-def star_names(module, level):
+def star_names(module, level, package='fx_pkg'):
     import importlib
     setup_paths()
-    key = (module, level)
+    key = (module, level, package if level else None)
     if key not in _star_cache:
-        m = importlib.import_module(('.' * level) + (module or ''), 'fx_pkg' if level else None)
+        m = importlib.import_module(('.' * level) + (module or ''), package if level else None)
         if hasattr(m, '__all__'):
             _star_cache[key] = list(m.__all__)
         else:
@@ -37,11 +37,13 @@ class Dyn(object):
     def __init__(self, prog, mode, cap, keep_traces=False, lenient=False):
         setup_paths()
         self.src = prog['src']
-        self.package = bool(prog.get('package'))
+        self.package = prog.get('package') or False
         self.filename = suppview.filename_for(self.package)
         self.tree = ast.parse(self.src)
-        self.program = dynref.Program(self.src, self.filename, package='fx_pkg' if self.package else None,
-                                      modname='fx_pkg.gen_prog' if self.package else 'gen_prog', star_names=star_names)
+        pkgname = ('fx_pkg.inner' if self.package == 2 else 'fx_pkg') if self.package else None
+        self.program = dynref.Program(self.src, self.filename, package=pkgname,
+                                      modname=pkgname + '.gen_prog' if pkgname else 'gen_prog',
+                                      star_names=lambda module, level: star_names(module, level, pkgname or 'fx_pkg'))
         self.ins = self.program.ins
         self.program.lenient = lenient
         self.res = self.program.explore(mode, cap, keep_traces)
